@@ -224,7 +224,7 @@ def run(ctx):
     for r in reuse_bad[:1]:
         rc = [c for c in rcases if c["id"] == r["id"]][0]
         ctx.violation({"kind": "property-fails-on-implementation",
-                       "history": "sbc = SBC(); sbc.get_clusters(structure with pbc=alt_pbc, **kwargs); for each of prior_structures (translated / permuted / other-element copy, rng seeded with the case id): sbc.get_clusters(copy, **kwargs); for pk in prior: sbc.get_clusters(structure, **pk); clusters = sbc.get_clusters(structure, **kwargs); "
+                       "history": "sbc = SBC(); sbc.get_clusters(structure with pbc=alt_pbc, **kwargs); for each of prior_structures (translated / permuted / other-element copy, rng seeded with the case id): sbc.get_clusters(copy, **kwargs); (odd case ids: the same Atoms object is clustered once more, then re-ordered and a third of its atoms relabelled IN PLACE, rng seeded with the case id -- see harness/impl/sbc_reuse_impl.py); for pk in prior: sbc.get_clusters(structure, **pk); clusters = sbc.get_clusters(structure, **kwargs); "
                                   "compare cluster.get_dimensionality() with matid.geometry.get_dimensionality(cluster.get_atoms(), bond_threshold, radii) "
                                   "and the clusters with those of a fresh SBC()",
                        "structure": rc["structure"], "alt_pbc": rc["alt_pbc"], "kwargs": rc["kwargs"], "prior": rc["prior"], "prior_structures": rc.get("prior_structures"), "detail": r,
